@@ -45,7 +45,7 @@ func (p *Address) ReadFrom(r io.Reader) (n int64, err error) {
 	p.TON = kind >> 4 & 0b111
 	length = (length + 1) / 2
 	data := make([]byte, length)
-	if _, err = buf.Read(data); err != nil {
+	if err = readFull(buf, data); err != nil {
 		return
 	}
 	if p.TON != 0b101 {
@@ -90,7 +90,7 @@ func (p *SCAddress) ReadFrom(r io.Reader) (n int64, err error) {
 	p.NPI = kind & 0b1111
 	p.TON = kind >> 4 & 0b111
 	data := make([]byte, length-1)
-	if _, err = buf.Read(data); err != nil {
+	if err = readFull(buf, data); err != nil {
 		return
 	}
 	if p.TON != 0b101 {
